@@ -228,7 +228,12 @@ def check(src, rep):
     if not bad and res[0] == "value":
         items2 = [AObj("Container", {"obis": c, "content": content}) for c, content in zip([code(known[2]), code(known[0]), "1.1.250.251.252.255", code(known[1]), "0.0.1.0.0.255"],
                                                                                           [TXT, cases[0][2], cases[4][2], cases[1][2], cases[3][2]])]
+        snap1 = dict(res[1])
         res2 = A.apply(fn, [body_of(items2)])
+        if res2[0] == "value" and (res[1] is res2[1] or dict(res[1]) != snap1):
+            bad += 1
+            rep.violation("R4", f"aidon.{fn.name}", "result-aliased", "the dictionary returned for one list is the same object that the next decode refills: a result kept by the caller changes when "
+                          "the next message is decoded", file, fn.node.lineno)
         want2 = {MAN: "Aidon", name_map[known[2]]: TXT, name_map[known[0]]: Res("float", V), "250.251.252": Res("float", V), name_map[known[1]]: U2, name_map.get("1.0.0", "1.0.0"): DT}
         if res2[0] != "value" or res2[1] != want2:
             bad += 1
